@@ -24,6 +24,12 @@ def handle (st : State) (op : String) (j : Json) : Option (R (State × String)) 
   | "inthash" => some do
     let b ← getBytes j "data"
     pure (st, hexOfNat (intHashSha256 b))
+  | "inthash-concurrent" => some do
+    let inputs ← (← asArr (← field j "inputs")).mapM fun x => do
+      match parseHexBytes? (← asStr x) with
+      | some b => pure b
+      | none => throw "bad input"
+    pure (st, "ok " ++ ",".intercalate (inputs.map fun b => hexOfNat (intHashSha256 b)))
   | "hashnumber" => some do
     let a ← getOptInt j "a"
     let b ← getOptInt j "b"
@@ -60,7 +66,7 @@ def handle (st : State) (op : String) (j : Json) : Option (R (State × String)) 
     let a ← getInt j "a"; let fs ← getInts j "factors"
     let n := fs.foldl (· * ·) 1
     pure (st, match modSqrt a fs with
-      | .root r => "ok " ++ hexOfNat r ++ (if ((r : Int) * r - a) % n = 0 then " sq" else " notsq")
+      | .root r => (if ((r : Int) * r - a) % n = 0 then "root " else "wrong-root ") ++ hexOfNat r
       | .noRoot => "none" | .diverges => "diverges")
   | "sum4" => some do
     let n ← getNat j "n"
